@@ -8,6 +8,7 @@
 //!               property evaluated directly on the implementation's behaviour
 //!   meta.json   measured counts, generator distribution, samples, variants
 pub mod rng;
+pub mod bmp;
 
 use std::collections::{BTreeMap, HashSet};
 use std::fmt::Write as _;
